@@ -23,6 +23,16 @@ LEVEL_TEXT = {
     "C20": ("fault_enumeration", "§4 C20, §11.4", "Counterfactual branching: for every callback call k of a sampled run the same world is re-run with StopIteration at k and, for every second k, with maxfev=k; the returned point must be bit-equal to what call k received; all callback styles incl. partials and falsy callables, optional prelude call with the other convention, forked cases."),
 }
 TECH = "deterministic simulation with fault injection (seeded worlds, scripted peers, replayable fault plans)"
+TECHS = {
+    "C05": "deterministic simulation with fault injection: budget exhaustion enumerated at every evaluation index of seeded worlds, history oracles",
+    "C09": "deterministic simulation with fault injection: stop requests (cancellation, target, feasibility) enumerated at every evaluation index of seeded worlds",
+    "C20": "deterministic simulation with fault injection: counterfactual branching (re-run of the same world stopped at every callback call)",
+    "C03": "deterministic simulation with fault injection: component state machine vs plain-list reference model, plus seeded faulted worlds",
+    "C12": "deterministic simulation with fault injection: component state machine (operation / fault histories) plus read-only probes inside seeded worlds",
+    "C18": "deterministic simulation with fault injection: component state machine plus per-iteration probes inside seeded faulted worlds",
+    "C10": "deterministic simulation with fault injection: differential (paired) worlds under one point-keyed fault plan",
+    "C11": "deterministic simulation: seeded baton-passing thread scheduler (line-level pre-emption, write-set-guided schedules), nested / repeated calls, dirty-allocator seam",
+}
 NA = {
     "C04": "fault-free input->output accuracy on reference families: a pure function of the inputs with no schedule, fault, cut point or history (DESIGN §2.3)",
     "C13": "numerical identity against exact arithmetic: pure function of the interpolation data (DESIGN §2.3); the history-shaped part is claimed as C12",
@@ -60,7 +70,7 @@ def main():
             "level_note": "Trusted base: numpy/scipy, the harness' scripted peers and reference models (sim/refmodel.py); "
                           "internal probes are read-only wrappers installed at run time. Sampled, not exhaustive: a clean "
                           "batch is evidence, not proof.",
-            "technique": TECH,
+            "technique": TECHS.get(prop, TECH),
         })
     na = [{"property_id": k, "reason": v} for k, v in sorted(NA.items())]
     for pid in sorted(LEVEL_TEXT):
